@@ -206,53 +206,53 @@ Definition sls (s : list N) : list N := SL :: s ++ [SL].    (* "/" ++ s ++ "/" *
 
 Definition kw_alt := NGrp (Alt (L s_manifests) (Alt (L s_layers) (L s_uploads))).
 
-(* paths.go:78 as shipped:  ^.+/repositories/(.+)/(?:_manifests|_layers|_uploads) *)
+(* paths.go:85 as shipped:  ^.+/repositories/(.+)/(?:_manifests|_layers|_uploads) *)
 Definition ast_get_repo_prefix : re :=
   seqs [dots; L (sls s_repositories); Grp dots; L [SL]; kw_alt].
-(* paths.go:78 with fixes/C38_getrepo_lazy.patch:  ^.+?/repositories/(.+?)/(?:_manifests|_layers|_uploads) *)
+(* paths.go:85 with fixes/C38_getrepo_lazy.patch:  ^.+?/repositories/(.+?)/(?:_manifests|_layers|_uploads) *)
 Definition ast_get_repo : re :=
   seqs [dots_lazy; L (sls s_repositories); Grp dots_lazy; L [SL]; kw_alt].
 
-(* paths.go:88  ^.+/blobs/sha256/[0-9a-z]{2}/([0-9a-z]+)/data$ *)
+(* paths.go:95  ^.+/blobs/sha256/[0-9a-z]{2}/([0-9a-z]+)/data$ *)
 Definition ast_get_blob_digest : re :=
   seqs [dots; L (sls s_blobs ++ s_sha256 ++ [SL]); Rep 2 c09az; L [SL]; Grp hexs; L (sl s_data); Eol].
-(* paths.go:102  ^.+/_layers/sha256/([0-9a-z]+)/(?:link|data)$ *)
+(* paths.go:109  ^.+/_layers/sha256/([0-9a-z]+)/(?:link|data)$ *)
 Definition ast_get_layer_digest : re :=
   seqs [dots; L (sls s_layers ++ s_sha256 ++ [SL]); Grp hexs; L [SL]; NGrp (Alt (L s_link) (L s_data)); Eol].
-(* paths.go:116  ^.+/_manifests/(?:revisions|tags/.+/index)/sha256/([0-9a-z]+)/link$ *)
+(* paths.go:123  ^.+/_manifests/(?:revisions|tags/.+/index)/sha256/([0-9a-z]+)/link$ *)
 Definition ast_get_manifest_digest : re :=
   seqs [dots; L (sls s_manifests);
         NGrp (Alt (L s_revisions) (seqs [L (s_tags ++ [SL]); dots; L (sl s_index)]));
         L (sls s_sha256); Grp hexs; L (sl s_link); Eol].
-(* paths.go:130  ^.+/_manifests/tags/([^/]+)/(current|index/sha256/[0-9a-z]+)/link$ *)
+(* paths.go:137  ^.+/_manifests/tags/([^/]+)/(current|index/sha256/[0-9a-z]+)/link$ *)
 Definition ast_get_manifest_tag : re :=
   seqs [dots; L (sls s_manifests ++ s_tags ++ [SL]); Grp noslash; L [SL];
         Grp (Alt (L s_current) (seqs [L (s_index ++ sls s_sha256); hexs]));
         L (sl s_link); Eol].
 (* the tail of GetUploadUUID / matchUploadsPath #2:  hashstates/[a-zA-Z0-9]+(?:/[0-9]+)?$ *)
 Definition hs_tail := seqs [L (s_hashstates ++ [SL]); alnums; Opt (seqs [L [SL]; digits]); Eol].
-(* paths.go:144  ^.+/_uploads/([^/]+)/(?:data$|startedat$|hashstates/[a-zA-Z0-9]+(?:/[0-9]+)?$) *)
+(* paths.go:150  ^.+/_uploads/([^/]+)/(?:data$|startedat$|hashstates/[a-zA-Z0-9]+(?:/[0-9]+)?$) *)
 Definition ast_get_upload_uuid : re :=
   seqs [dots; L (sls s_uploads); Grp noslash; L [SL];
         NGrp (Alt (Seq (L s_data) Eol) (Alt (Seq (L s_startedat) Eol) hs_tail))].
-(* paths.go:154  ^.+/_uploads/[^/]+/hashstates/([a-zA-Z0-9]+)/([0-9]+)$ *)
+(* paths.go:160  ^.+/_uploads/[^/]+/hashstates/([a-zA-Z0-9]+)/([0-9]+)$ *)
 Definition ast_get_upload_algo_offset : re :=
   seqs [dots; L (sls s_uploads); noslash; L (sls s_hashstates); Grp alnums; L [SL]; Grp digits; Eol].
-(* paths.go:165  ^.+/_manifests/(tags|revisions)(?:/.+/link)?$ *)
+(* paths.go:171  ^.+/_manifests/(tags|revisions)(?:/.+/link)?$ *)
 Definition ast_match_manifests : re :=
   seqs [dots; L (sls s_manifests); Grp (Alt (L s_tags) (L s_revisions));
         Opt (seqs [L [SL]; dots; L (sl s_link)]); Eol].
-(* paths.go:175  ^.+/blobs/sha256/[0-9a-z]{2}/[0-9a-z]+/data$ *)
+(* paths.go:181  ^.+/blobs/sha256/[0-9a-z]{2}/[0-9a-z]+/data$ *)
 Definition ast_match_blobs : re :=
   seqs [dots; L (sls s_blobs ++ s_sha256 ++ [SL]); Rep 2 c09az; L [SL]; hexs; L (sl s_data); Eol].
-(* paths.go:185  ^.+/_layers/sha256/[0-9a-z]+/(link|data)$ *)
+(* paths.go:191  ^.+/_layers/sha256/[0-9a-z]+/(link|data)$ *)
 Definition ast_match_layers : re :=
   seqs [dots; L (sls s_layers ++ s_sha256 ++ [SL]); hexs; L [SL]; Grp (Alt (L s_link) (L s_data)); Eol].
-(* paths.go:196  ^.+/_uploads/[^/]+/(data$|startedat$|hashstates) *)
+(* paths.go:202  ^.+/_uploads/[^/]+/(data$|startedat$|hashstates) *)
 Definition ast_match_uploads : re :=
   seqs [dots; L (sls s_uploads); noslash; L [SL];
         Grp (Alt (Seq (L s_data) Eol) (Alt (Seq (L s_startedat) Eol) (L s_hashstates)))].
-(* paths.go:205  ^.+/_uploads/[^/]+/hashstates/[a-zA-Z0-9]+(?:/[0-9]+)?$ *)
+(* paths.go:211  ^.+/_uploads/[^/]+/hashstates/[a-zA-Z0-9]+(?:/[0-9]+)?$ *)
 Definition ast_match_uploads_hashstates : re :=
   seqs [dots; L (sls s_uploads); noslash; L [SL]; hs_tail].
 
@@ -287,32 +287,32 @@ Definition digest_of (o : option (list (list N))) : option (list N) :=
   | None => None
   end.
 
-Definition get_repo_with (r : re) (p : list N) : option (list N) := first_cap (exec r p).  (* paths.go:77 *)
+Definition get_repo_with (r : re) (p : list N) : option (list N) := first_cap (exec r p).  (* paths.go:84 *)
 Definition get_repo := get_repo_with ast_get_repo.
 Definition get_repo_prefix := get_repo_with ast_get_repo_prefix.   (* as shipped, before the fix *)
-Definition get_blob_digest (p : list N) := digest_of (exec ast_get_blob_digest p).          (* paths.go:87 *)
-Definition get_layer_digest (p : list N) := digest_of (exec ast_get_layer_digest p).        (* paths.go:101 *)
-Definition get_manifest_digest (p : list N) := digest_of (exec ast_get_manifest_digest p).  (* paths.go:115 *)
-Definition get_manifest_tag (p : list N) : option (list N * bool) :=                        (* paths.go:129 *)
+Definition get_blob_digest (p : list N) := digest_of (exec ast_get_blob_digest p).          (* paths.go:94 *)
+Definition get_layer_digest (p : list N) := digest_of (exec ast_get_layer_digest p).        (* paths.go:108 *)
+Definition get_manifest_digest (p : list N) := digest_of (exec ast_get_manifest_digest p).  (* paths.go:122 *)
+Definition get_manifest_tag (p : list N) : option (list N * bool) :=                        (* paths.go:136 *)
   match exec ast_get_manifest_tag p with
   | Some (t :: c :: _) => Some (t, str_eqb c s_current)
   | _ => None
   end.
-Definition get_upload_uuid (p : list N) : option (list N) := first_cap (exec ast_get_upload_uuid p).  (* paths.go:143 *)
-Definition get_upload_algo_offset (p : list N) : option (list N * list N) :=               (* paths.go:153 *)
+Definition get_upload_uuid (p : list N) : option (list N) := first_cap (exec ast_get_upload_uuid p).  (* paths.go:149 *)
+Definition get_upload_algo_offset (p : list N) : option (list N * list N) :=               (* paths.go:159 *)
   match exec ast_get_upload_algo_offset p with
   | Some (a :: o :: _) => Some (a, o)
   | _ => None
   end.
 
-Definition match_manifests (p : list N) : option (list N) := first_cap (exec ast_match_manifests p).  (* paths.go:164 *)
-Definition match_blobs (p : list N) : option (list N) :=                                                (* paths.go:174 *)
+Definition match_manifests (p : list N) : option (list N) := first_cap (exec ast_match_manifests p).  (* paths.go:170 *)
+Definition match_blobs (p : list N) : option (list N) :=                                                (* paths.go:180 *)
   match exec ast_match_blobs p with Some _ => Some st_data | None => None end.
-Definition match_layers (p : list N) : option (list N) := first_cap (exec ast_match_layers p).        (* paths.go:184 *)
-Definition match_uploads (p : list N) : option (list N) :=                                              (* paths.go:195 *)
+Definition match_layers (p : list N) : option (list N) := first_cap (exec ast_match_layers p).        (* paths.go:190 *)
+Definition match_uploads (p : list N) : option (list N) :=                                              (* paths.go:201 *)
   match first_cap (exec ast_match_uploads p) with
   | Some st =>
-      if str_eqb st st_hashstates                                                                       (* paths.go:203 *)
+      if str_eqb st st_hashstates                                                                       (* paths.go:209 *)
       then match exec ast_match_uploads_hashstates p with Some _ => Some st | None => None end
       else Some st
   | None => None
